@@ -23,7 +23,14 @@ RULE = ('scripted models: every outcome sequence over {close, same, edge(|diff|=
         'call that runs at least one pass')
 TRUSTED = ['Python/NumPy float64 comparison |a-b| < tol is IEEE-754 (mirrored by Lean Float in the driver instance)',
            'the scripted-model harness (solver_common.py) plays the same script on both sides']
-ASSUMPTIONS = ['-n <= t < n', 'check variables are float series', 'tol is a finite non-NaN float']
+ASSUMPTIONS = ['-n <= t < n (Python int or signed NumPy integer; bool and unsigned NumPy integers are outside: HEAD broadcasts / wraps them)',
+               'the Lean model computes on float64 check vectors: float64, float32 and object-of-float models are compared bit for bit; '
+               'int-dtype models use integer-valued scripts below 2**53 in the correspondence check, and magnitudes at and beyond 2**53 '
+               'are judged by an exact-integer oracle in Python only (stream bigint), not by the model',
+               'tol is a finite non-NaN float',
+               'variations the model cannot see (how user code stores a value, warning category, exception class, mixins, strict, '
+               'instance provenance, argument forms, member-like names, instance check list vs class CHECK) are generated on the '
+               'implementation side only and must leave the compared outcome unchanged']
 
 META = {
     "text": "Theorems for every interpretation (model, hooks, float semantics), option set, span length and period: rejection of min_iter>max_iter and out-of-span offsets without change, offset seeding, stop at the least accepted pass with status '.', iterations = passes run, True; otherwise 'F', iterations = max_iter, False / NonConvergenceError iff failures='raise'; hooks called exactly once and passes exactly k times (logged interpretation + simulation lemma); solve_t factors through the user state (solveT_eq_outcome): values, result and the stamp left do not depend on the status/iterations record of earlier calls. The model is tied to BaseModel.solve_t by exact comparison on scripted outcome lattices and on parser-built systems.",
